@@ -327,8 +327,12 @@ structure FpCfg where
   N : Nat
   deriving Repr, DecidableEq, Inhabited
 
-/-- `MODULUS_BIT_SIZE = MODULUS.const_num_bits()` -/
-def FpCfg.bits (c : FpCfg) : Nat := if c.p = 0 then 0 else c.p.log2 + 1
+/-- bit length of a `u64`: `64 - x.leading_zeros()` -/
+def bitLen (x : Nat) : Nat := if x = 0 then 0 else x.log2 + 1
+
+/-- `MODULUS_BIT_SIZE = MODULUS.const_num_bits() = (N - 1) * 64 + (64 - MODULUS.0[N - 1].leading_zeros())`:
+    the bit length of `p` when `N` is minimal, `64 (N - 1)` when the top limb of the modulus is zero -/
+def FpCfg.bits (c : FpCfg) : Nat := (c.N - 1) * 64 + bitLen (c.p / 2 ^ (64 * (c.N - 1)) % 2 ^ 64)
 
 /-- `into_bigint().0`: the `N` limbs of the standard integer representative -/
 def intoBigint (c : FpCfg) (x : Fp c.p) : List Nat := toLimbs c.N x.val
